@@ -261,7 +261,16 @@ pub fn run_case(u: &Universe, case: &Value) -> Vec<Value> {
     let mut ctxs = vec![];
     for d in case["inputs"].as_array().unwrap() {
         let ctx = d["ctx"].as_str().unwrap();
-        let s = wrap_str(u, d["wrap"].as_str().unwrap(), &ast_to_string(u, &d["ast"], ctx));
+        let wrap = d["wrap"].as_str().unwrap();
+        // key-type outputs: the AST is c:pk_k(K)
+        let kid = d["ast"]["xs"][0]["n"].as_u64().unwrap_or(0) as usize;
+        let s = match wrap {
+            "pkh" => format!("pkh({})", u.key_str(kid, "legacy")),
+            "wpkh" => format!("wpkh({})", u.key_str(kid, "segwitv0")),
+            "shwpkh" => format!("sh(wpkh({}))", u.key_str(kid, "segwitv0")),
+            "trkey" => format!("tr({})", u.key_str(kid, "tap")),
+            _ => wrap_str(u, wrap, &ast_to_string(u, &d["ast"], ctx)),
+        };
         descs.push(Desc::from_str(&s).expect("catalogue descriptor parses"));
         asts.push(d["ast"].clone());
         ctxs.push(ctx.to_string());
